@@ -107,8 +107,7 @@ Proof.
   destruct (N.eqb (N.land (effective_perms st m outf) write_mask) 0 && match read_only o with ROFail => true | _ => false end);
     [apply RO_bind_throw; apply Body; reflexivity|].
   eapply RO_bind with (Q := fun _ => True).
-  { destruct (match find (fun d => str_eqb (d_dest d) ftp) (rev (deferred_writes st)) with
-              | Some d => if d_newname d && exists_ m ftp then None else Some (d_data d) | None => None end).
+  { destruct (pending_content st m ftp outf).
     - apply RO_ret; exact I.
     - eapply RO_bind; [apply RO_open_read|intros r _].
       destruct r as [e0|].
